@@ -1,13 +1,13 @@
 """C05 — squash_in overwrites: the new event occupies [start, start + d), the rest stays."""
 from props.m1common import *  # noqa: F401,F403
-from props.m1common import g, sp, sx, rng_for, is_err, compare_result, shrink_tree
+from props.m1common import hist_compare, hist_oracle, hist_times, g, sp, sx, rng_for, is_err, compare_result, shrink_tree
 
 PID = "C05"
 KERNELS = ['K_chronon_cut_off']   # translated from /repo on every run, tied to the model by coq/Gen/<name>_eq.v
 RUNNER = "impl_m1.py"
 VM_CROSSCHECK = True
 N = {"quick": 2000, "thorough": 80000}
-LEVEL_RULE = ("receivers: random sequences (depth <= 4, zero-length leaves, empty containers, nested simultaneities) and "
+LEVEL_RULE = ("(10 % of the sequence cases are histories of 2-3 further insertions into the same object, every step judged like a single call on the state left behind) receivers: random sequences (depth <= 4, zero-length leaves, empty containers, nested simultaneities) and "
               "simultaneities whose voices are sequences or again simultaneities of sequences (unequal lengths); inserted event: leaf, "
               "sequence or simultaneity of length 0 .. 6 units (also running past the end); start drawn from child boundaries +-1 tick, "
               "leaf interiors, 0 and the duration; plus a malformed stream (about 14 %: negative start, start beyond the duration, "
@@ -61,11 +61,31 @@ def gen_case(pid, op, seed, index):
     return ["op", t, [op, start, new]]
 
 
-def gen(seed, index):
+def gen1(seed, index):
     return gen_case(PID, OP, seed, index)
 
 
+def gen(seed, index):
+    case = gen1(seed, index)
+    rng = rng_for(PID + "-hist", seed, index)
+    if rng.random() < 0.1 and case[1][0] == "S" and case[0] == "op":
+        # history stream: 2-3 further events put into the same sequence object (each with fresh labels)
+        unit = max(1, g.dur(case[1]) // 8)
+        d = g.dur(case[1])
+        ops = []
+        for k in range(rng.randint(2, 3)):
+            n = rng.choice([0, 1, 1, 2, 3]) * unit
+            new = ["L", n, 5000 + k] if rng.random() < 0.7 else ["S", 0, 0, ["L", n, 5000 + k], ["L", unit, 5100 + k]]
+            start = hist_times(rng, d, max(1, unit // 2))[0]
+            ops.append([OP, min(start, d), new])
+            d = max(d, min(start, d) + g.dur(new))
+        return ["hist", case[1]] + ops
+    return case
+
+
 def compare(case, mo, io):
+    if case[0] == "hist":
+        return hist_compare(case, mo, io)
     return compare_result(mo, io)
 
 
@@ -211,10 +231,14 @@ def oracle_for(case, io, err_leaf, check_seq_fn):
 
 
 def oracle(case, io, mo):
+    if case[0] == "hist":
+        return hist_oracle(oracle, case, io)
     return oracle_for(case, io, ERR_LEAF, check_seq)
 
 
 def nontrivial(case, io):
+    if case[0] == "hist":
+        return io is not None and len(io) >= 3 and not any(is_err(x) for x in io[1:])
     if io is None or is_err(io):
         return False
     t = case[1]
@@ -235,6 +259,9 @@ def stats(results):
     for r in results:
         io = r.get("io")
         case = r["case"]
+        if case[0] == "hist":
+            c["history:steps=%d" % (len(case) - 2)] += 1
+            continue
         c["ok" if io and io[0] == "ok" else "err:" + (io[1] if io and len(io) > 1 else "?")] += 1
         c["root:" + case[1][0]] += 1
         c["new:" + case[2][2][0]] += 1
@@ -244,6 +271,8 @@ def stats(results):
 
 
 def shrink(case):
+    if case[0] == "hist":
+        return [case[:2] + case[2:2 + i] + case[3 + i:] for i in range(len(case) - 2) if len(case) > 3]
     op = case[2]
     out = [["op", t2, op] for t2 in shrink_tree(case[1])]
     out += [["op", case[1], [op[0], op[1], n2]] for n2 in shrink_tree(op[2])]
@@ -251,6 +280,8 @@ def shrink(case):
 
 
 def neighbours(case):
+    if case[0] == "hist":
+        return shrink(case)
     op = case[2]
     out = [["op", case[1], [op[0], int(op[1]) + dx, op[2]]] for dx in (-1, 1)]
     return out + shrink(case)
